@@ -180,7 +180,7 @@ func runC15(c *core.Ctx, o Options) {
 	// U4 live registration + no Clean/Handle from inside a triggered callback
 	nReg := 0
 	for _, r := range s.roots() {
-		if r.Cat == "method" && !isExported(r.Fn.Name()) && s.inPkgCallers(r.Fn) > 0 {
+		if r.Cat == "method" && !isExported(an.NameOf(r.Fn)) && s.inPkgCallers(r.Fn) > 0 {
 			continue
 		}
 		bad := ""
@@ -193,7 +193,7 @@ func runC15(c *core.Ctx, o Options) {
 					regs++
 				}
 				if e.Kind == "clean" && seenReg != "" {
-					bad = fmt.Sprintf("the callback registered for %s is wiped by EventHandlerPool.Clean before %s returns: %s", seenReg, r.Fn.Name(), traceStr(t))
+					bad = fmt.Sprintf("the callback registered for %s is wiped by EventHandlerPool.Clean before %s returns: %s", seenReg, an.NameOf(r.Fn), traceStr(t))
 				}
 				if (e.Kind == "clean" || e.Kind == "register") && r.Cat == "event" {
 					bad = fmt.Sprintf("a callback triggered by the event pool calls %s on it: Trigger holds the pool's read lock, so this blocks forever", e.Kind)
